@@ -107,7 +107,7 @@ def tie_pass(ck, sources, max_programs=150, tag="tie"):
                      {"program": r["src"], "theorem": "FreeLower.data_movement_zero_and"})
     ck.coverage["theorem_fragments"] = {
         "tied_programs": tied, "covered_program (TSem = Sem.v proved: full fragment or scalar fragment with calls)": sum(1 for r in recs if r.get("cov")),
-        "wt_covered (covered, and the strict checker implies Wt.v: Sem.v provably not stuck for a typing reason)": sum(1 for r in recs if r.get("wtcov")),
+        "wt_covered && sem_fuel_enough (covered; strict checker implies Wt.v; Sem.v provably neither stuck for a typing reason nor out of fuel)": sum(1 for r in recs if r.get("wtcov")),
         "in_imperative_scalar_fragment (TSem = Sem.v proved)": imp,
         "in_data_movement_class (zero AND gates proved)": len(kfree),
         "safe_program_ok (TSem never crashes, declared output size: proved)": sum(1 for r in recs if r.get("safe")),
